@@ -143,6 +143,7 @@ def mon_conn(ops, impl):
     held = {}
     woken_since_poll, input_since_poll, parked = False, True, False
     gone, gone_st, last_st_before = False, "", ""
+    peer_goaway, result_seen = "-", False
     for i, (o, a) in enumerate(zip(ops, impl)):
         w = o.split(" ")
         if w[0] == "cn_new":
@@ -156,6 +157,7 @@ def mon_conn(ops, impl):
             held = {}
             woken_since_poll, input_since_poll, parked = False, True, False
             gone = False
+            peer_goaway, result_seen = "-", False
             budget_open = True
             alive = True
             role = w[1]
@@ -185,6 +187,16 @@ def mon_conn(ops, impl):
             selfw = "c" in _f(a, "wk=").split(",")
             progress = _f(a, "tx=") != "-" or st != last_st or last_op_was_input
             out.append((i, f"mon_cn polled {int(selfw)} {int(progress)}"))
+        # C15: how the connection future completes vs the peer's last GOAWAY
+        if w[0] == "cn_peer":
+            for f in (_f(a, "rx=").split(";") if _f(a, "rx=") != "-" else []):
+                if f.startswith("G:"):
+                    peer_goaway = (peer_goaway + "," if peer_goaway != "-" else "") + f.split(":")[3]
+        if w[0] == "cn_poll" and not result_seen and (r == "done" or r.startswith("err:")):
+            result_seen = True
+            p = r.split(":")
+            kind = "done" if r == "done" else ("goaway-remote" if len(p) >= 4 and p[1] == "goaway" and p[3] == "remote" else "other")
+            out.append((i, f"mon_cn connresult {peer_goaway} {kind} {p[2] if kind == 'goaway-remote' else 0}"))
         # C06: a poll nobody asked for must find nothing to write
         if "c" in _f(a, "wk=").split(",") and w[0] != "cn_poll":
             woken_since_poll = True
@@ -499,8 +511,11 @@ CONN_EXTRA = {
             "history_starts": ("cn_new", "e2e_run")},
     "C07": {"profiles": CONN_PROFILES + E2E_ENDING, "impl_only_prefixes": ("e2e_",), "impl_fail_tags": ("C07",),
             "history_starts": ("cn_new", "e2e_run")},
-    "C08": {"profiles": CONN_PROFILES + FUZZ + [{"name": "server-preface", "quick": 2000, "thorough": 200000, "shards": {"quick": 1, "thorough": 8}}],
-            "impl_only_prefixes": ("hs_",), "impl_fail_tags": ("C08",), "history_starts": ("cn_new", "hs_run")},
+    "C08": {"profiles": CONN_PROFILES + FUZZ + [{"name": "server-preface", "quick": 2000, "thorough": 200000, "shards": {"quick": 1, "thorough": 8}}] + E2E_PROGRESS,
+            "impl_only_prefixes": ("hs_", "e2e_"), "impl_fail_tags": ("C08",), "history_starts": ("cn_new", "hs_run", "e2e_run")},
+    # the two-endpoint runs end with every handle dropped: the idle client must close by itself (C19); poll_capacity never Ready(0) (C16)
+    "C19": {"profiles": CONN_PROFILES + E2E_PROGRESS, "impl_only_prefixes": ("e2e_",), "impl_fail_tags": ("C19",),
+            "history_starts": ("cn_new", "e2e_run")},
 }
 CONN_BASE_THMS = {
     "C17": [],
@@ -540,3 +555,6 @@ for _pid in [x for x in os.environ.get("H2V_DEV_CLAIM", "").split(",") if x]:
     if _pid not in PROPS:
         PROPS[_pid] = conn_prop([], [], CONN_PROFILES, assumptions=CONN_ASSUMPTIONS)
         PROPS[_pid].update(CONN_EXTRA.get(_pid, {}))
+
+PROPS["C16"].update({"profiles": CONN_PROFILES + E2E_PROGRESS, "impl_only_prefixes": ("e2e_",), "impl_fail_tags": ("C16",),
+                     "history_starts": ("cn_new", "e2e_run")})
